@@ -74,6 +74,12 @@ GetAcc(r, j, obs) ==                                           \* {x: 1}.get(y) 
   IN IF ~hi \/ ~hj THEN obs = 2
      ELSE MemAcc(r, j, obs, TRUE)
 
+BothAcc(r, j, obs) ==                                          \* x and y both inserted: one entry iff equal
+  LET hi == r.hash.ok
+      hj == Row(j).hash.ok
+  IN IF ~hi \/ ~hj THEN obs = 2
+     ELSE MemAcc(r, j, obs, TRUE)
+
 (***************************************************************************)
 (* LAWS over the recorded relations.                                        *)
 (***************************************************************************)
@@ -87,7 +93,7 @@ RowGood(r) ==
       J == 1..N
       T == TotalOrderType(x)
   IN
-  /\ \A op \in {"eq", "ne", "lt", "le", "gt", "ge", "ind", "ins", "inl", "get"} :
+  /\ \A op \in {"eq", "ne", "lt", "le", "gt", "ge", "ind", "ins", "inl", "get", "one", "upd"} :
         Report(r, "code-" \o op, Pairs1({j \in J : M[op][j] \notin {0, 1, 2}}))
   /\ Report(r, "refl", Pairs1({j \in {a} : M.eq[j] = 0}))
   /\ Report(r, "sym", Pairs1({j \in J : M.eq[j] # Row(j).m.eq[a]}))
@@ -112,6 +118,15 @@ RowGood(r) ==
   /\ Report(r, "set-member", Pairs1({j \in J : ~MemAcc(r, j, M.ins[j], FALSE)}))
   /\ Report(r, "dict-get", Pairs1({j \in J : ~GetAcc(r, j, M.get[j])}))
   /\ Report(r, "list-member", Pairs1({j \in J : M.inl[j] # M.eq[j]}))
+  /\ Report(r, "set-dedupe", Pairs1({j \in J : ~BothAcc(r, j, M.one[j])}))       \* len(set([x, y])) == 1
+  /\ Report(r, "dict-update", Pairs1({j \in J : ~BothAcc(r, j, M.upd[j])}))      \* d = {x: 1}; d[y] = 2; len(d) == 1
+  \* the hash() built-in: equal values hash equally (its value is compared across processes by the driver)
+  /\ Report(r, "hashfn-eq", Pairs1({j \in J : M.eq[j] = 1 /\
+                                   (r.hf.ok # Row(j).hf.ok \/ (r.hf.ok /\ r.hf.v # Row(j).hf.v))}))
+  /\ Report(r, "hashfn-defined", Pairs1({j \in {a} : (x.t = "str" /\ ~r.hf.ok) \/
+                                   (x.t \notin {"str", "bytes"} /\ r.hf.ok)}))
+  \* doc/spec.md fixes the function on strings (Java's String.hashCode); outside C11: noted, not judged
+  /\ (x.t = "str" /\ r.hf.ok /\ r.hf.v # JavaStringHash(x.v)) => PrintT(<<"NOTE", r.id, "hash-builtin-differs-from-java-hashCode">>)
   /\ \A k \in 1..6 : Report(r, "conf-" \o Ops[k], Pairs1(ConfBad(r, Ops[k])))
 
 \* hashes of another build: stable, and equal for values the (identical) == matrix calls equal
